@@ -97,7 +97,7 @@ def run(ctx) -> None:
         P,
         no_inline={"join", "is_alive", "dispatch", "queue_events", "BaseThread.start", "EventEmitter.stop"},
         follow_attrs=False,
-        raising={r"self\._emitter_class": "Exception", r"emitter\.start": "Exception", r"\w+\.start": "Exception"},
+        raising={r"self\._emitter_class": "Exception", r".+\.start": "Exception"},
     )
     cls = "BaseObserver"
     fi = P.find_method(cls, "schedule")
